@@ -284,7 +284,11 @@ def run(model, tier):
         from . import c01_guderley
         c01_guderley.similarity(model, part)
 
-    tasks = [(closed_forms, ()), (riemann, ()), (ehep, ()), (guderley, ())] + c11.interior_pde_tasks(model)
+    def riemann2d(part):
+        from . import c01_riemann2d
+        c01_riemann2d.fans(model, part)
+
+    tasks = [(closed_forms, ()), (riemann, ()), (ehep, ()), (guderley, ()), (riemann2d, ())] + c11.interior_pde_tasks(model)
     run_parallel(tasks, res)
     for f in res.findings:
         if f.prop != PROP:
